@@ -90,6 +90,10 @@ def check(chk):
     pw = [st for st in ast.walk(cl.tree) if isinstance(st, ast.Assign) and isinstance(st.targets[0], ast.Subscript) and isinstance(st.targets[0].value, ast.Attribute) and st.targets[0].value.attr == '_pools']
     chk.judge(len(pw) == 1 and any(pw[0] is x for x in ast.walk(inner[0])), 'C45.publish', arp, 'Session._pools[...] is assigned only in run_add_or_renew_pool', 'another function publishes a pool')
     _publish(chk, inner[0], lambda st: isinstance(st, ast.Assign) and src(st.targets[0]) == 'self._pools[host]', 'self.is_shutdown', ('self',), '_lock', 'new_pool.shutdown()')
+    # pools: a replacement / additional connection that finishes connecting after the pool was shut down (same rule; C12 looks at the pools in more depth)
+    pl = chk.repo.mod(POOL)
+    _publish(chk, pl.func('HostConnection._replace'), lambda st: isinstance(st, ast.Assign) and src(st.targets[0]) == 'self._connection' and src(st.value) == 'conn', 'self.is_shutdown', ('self',), '_lock', 'conn.close()')
+    _publish(chk, pl.func('HostConnectionPool._add_conn_if_under_max'), lambda st: isinstance(st, ast.Assign) and src(st.targets[0]) == 'self._connections' and src(st.value) == 'new_connections', 'self.is_shutdown', ('self',), '_lock', 'conn.close()')
     # created connections
     n_sites = 0
     for q, f in cl.functions():
@@ -169,7 +173,8 @@ def _may_raise_call(st):
 
 def _publish(chk, f, is_pub, flag, lock_recv, lockname, close_text):
     g = CFG(f)
-    fl = Flow(g, 0, lambda n, c: c)
+    # the shutdown flag is shared state: what was read in an earlier critical section says nothing once the lock is taken again
+    fl = Flow(g, 0, lambda n, c: c, volatile=lambda k: flag in k)
     pubs = [n for n in g.stmt_nodes() if n.kind == 'stmt' and is_pub(n.ast)]
     if len(pubs) != 1:
         raise AnalysisError('%s: one publication site expected, found %d' % (qual_of(f), len(pubs)))
